@@ -132,7 +132,12 @@ func main() {
 	os.RemoveAll("data")
 	storage.VerifAutoFlushDefault() // real timers
 	storage.VerifSetCaps(capLeaf, capInt)
-	storage.VerifSetEventSink(sink)
+	// VERIF_LOCKS_FREE=1 (used under the race detector): no event sink, no parking - the hooks' own mutex would order
+	// the flusher's steps before the session's next statement and hide unsynchronised accesses from happens-before analysis
+	free := os.Getenv("VERIF_LOCKS_FREE") == "1"
+	if !free {
+		storage.VerifSetEventSink(sink)
+	}
 	if err := storage.InitStorage(); err != nil {
 		fmt.Fprintln(proto, `{"ok":false,"err":"init"}`)
 		return
@@ -152,7 +157,7 @@ func main() {
 	tables := 0
 	rowsIn := map[string]int{}
 	// start recording at a moment when the flusher is between two flushes
-	for {
+	for !free {
 		mu.Lock()
 		if fState == "idle" {
 			events = append(events, event{Seq: 1, G: "S", E: "reset"})
@@ -216,15 +221,24 @@ func main() {
 			}
 			parked = false
 			mu.Unlock()
-			mark("begin", k)
+			if !free {
+				mark("begin", k)
+			}
 			err := sess.ExecQuery(q)
-			mark("end", k)
+			if !free {
+				mark("end", k)
+			}
 			mu.Lock()
 			stats["stmt-"+k]++
 			if err != nil {
 				stats["stmt-error"]++
 			}
 			mu.Unlock()
+			if free {
+				// long enough, now and then, for a tick to fall between two statements
+				time.Sleep(time.Duration(rng.Intn(3)*60) * time.Millisecond)
+				continue
+			}
 			time.Sleep(time.Duration(rng.Intn(40)) * time.Millisecond)
 		}
 	}
